@@ -619,6 +619,7 @@ package wire
 //@   ensures [consumed] implies(length != 0, length == 1 + connIDLen + int(result2) && length <= len(data) && 1 <= result2 && result2 <= 4 && 0 <= result1 && result1 < pnspace(uint8(result2)))
 //@   ensures [success-consumes] implies(result4 == nil, length >= 2)
 //@   ensures [long-header-rejected] implies(len(data) >= 1 && data[0] & 128 != 0, result4 != nil && length == 0)
+//@   ensures [only-the-reserved-bits-error-comes-with-a-parsed-header] implies(result4 != nil, iff(length != 0, result4 == ErrInvalidReservedBits)) && implies(result4 == nil, len(data) >= 1 && data[0] & 24 == 0)
 //@   modifies nothing
 
 //@ func AppendShortHeader
